@@ -594,3 +594,347 @@ def rule_S3b(repo: Repo) -> RuleResult:
     if n < 6:
         raise AnalysisError(f"S3b: only {n} attributes assigned on the copy path (floor 6)")
     return res
+
+
+# ------------------------------------------------------------------------------------------------ R1
+
+def _reversed_range(e: ast.AST) -> bool:
+    """range(n - 1, -1, -1) / reversed(range(n)) / X[::-1]"""
+    if isinstance(e, ast.Call) and norm(e.func) == "range" and len(e.args) == 3 and const_int(e.args[2]) == -1:
+        return True
+    if isinstance(e, ast.Call) and norm(e.func) == "reversed":
+        return True
+    return False
+
+
+def _flip_of(e: ast.AST) -> Optional[str]:
+    """name of the array flipped along an axis by X[..., ::-1] / np.flip(X) / np.fliplr(X)"""
+    if isinstance(e, ast.Subscript) and isinstance(e.value, ast.Name):
+        sl = e.slice.elts if isinstance(e.slice, ast.Tuple) else [e.slice]
+        if any(isinstance(s_, ast.Slice) and s_.lower is None and s_.upper is None and const_int(s_.step) == -1 for s_ in sl):
+            return e.value.id
+    if isinstance(e, ast.Call) and norm(e.func) in ("np.flip", "np.fliplr", "numpy.flip") and e.args and isinstance(e.args[0], ast.Name):
+        return e.args[0].id
+    return None
+
+
+def rule_R1(repo: Repo) -> RuleResult:
+    """_find_first_or_last_n: when the rows are scanned backwards (tail), the per-group slots are filled last-row-first; the
+    result is flipped back along the slot axis under the same flag, so that the rows of a group come out in their original
+    relative order."""
+    res = RuleResult("R1", "a backward scan that fills slots in visiting order is flipped back before it is returned")
+    f = repo.func(NB, "_find_first_or_last_n")
+    rev_tests: List[Tuple[str, bool]] = []          # (flag text, polarity under which the scan is reversed)
+    for i in walk_no_nested(f.node):
+        if isinstance(i, ast.If):
+            for arm, pol in ((i.body, True), (i.orelse, False)):
+                for s in arm:
+                    if isinstance(s, ast.Assign) and _reversed_range(s.value):
+                        rev_tests.append((norm(i.test), pol))
+    if not rev_tests:
+        raise AnalysisError("R1: the backward scan of _find_first_or_last_n was not found")
+    ret_names = {r.value.id for r in walk_no_nested(f.node) if isinstance(r, ast.Return) and isinstance(r.value, ast.Name)}
+    for test, pol in rev_tests:
+        flipped = False
+        for i in walk_no_nested(f.node):
+            if not isinstance(i, ast.If):
+                continue
+            t = i.test
+            same = (norm(t) == test and pol) or (isinstance(t, ast.UnaryOp) and isinstance(t.op, ast.Not) and norm(t.operand) == test and not pol) \
+                or (test.startswith("not ") and norm(t) == test[4:] and not pol)
+            opposite = (norm(t) == test and not pol) or (isinstance(t, ast.UnaryOp) and isinstance(t.op, ast.Not)
+                                                         and norm(t.operand) == test and pol)
+            arm = i.body if same else (i.orelse if opposite else None)
+            if arm is None:
+                continue
+            for s in arm:
+                if isinstance(s, ast.Assign) and _flip_of(s.value) in ret_names | {x.id for t_ in s.targets for x in ast.walk(t_)
+                                                                                  if isinstance(x, ast.Name)}:
+                    flipped = True
+                if isinstance(s, ast.Return) and s.value is not None and _flip_of(s.value):
+                    flipped = True
+        construct = f"scan reversed when {'not ' if not pol else ''}({test})"
+        if flipped:
+            res.ok(f, f.node, construct, "slot axis flipped back under the same condition")
+        else:
+            res.bad(f, f.node, construct,
+                    "the rows are visited last-to-first and stored in visiting order, but the slot axis is not reversed again "
+                    "under the same condition: tail(n) returns each group's rows in reverse order (visible whenever the result "
+                    "is not re-sorted: sort=False or categorical keys)")
+    return res
+
+
+# ------------------------------------------------------------------------------------------------ P17
+
+STACKERS = {"np.column_stack", "np.stack", "np.vstack", "np.hstack", "np.dstack", "np.array", "np.asarray", "np.concatenate",
+            "numpy.column_stack", "numpy.stack", "numpy.vstack", "numpy.hstack"}
+
+
+def rule_P17(repo: Repo) -> RuleResult:
+    """The value columns of one call (the list returned by convert_data_to_arr_list_and_keys / _preprocess_arguments) may have
+    different dtypes; they are never stacked into one NumPy array (which would promote them to a common dtype: int64 ids
+    next to a float column are rounded above 2^53, booleans become 0.0/1.0)."""
+    res = RuleResult("P17", "value columns of different dtypes are never stacked into one array")
+    core = repo.mod(CORE)
+    n = 0
+    for name, m in core.methods("GroupBy").items():
+        vlists: Set[str] = set()
+        for s in walk_no_nested(m.node):
+            if isinstance(s, ast.Assign) and isinstance(s.value, ast.Call) and isinstance(s.targets[0], ast.Tuple):
+                cn = (call_name(s.value) or "").split(".")[-1]
+                if cn == "convert_data_to_arr_list_and_keys" and isinstance(s.targets[0].elts[0], ast.Name):
+                    vlists.add(s.targets[0].elts[0].id)
+                if cn == "_preprocess_arguments" and len(s.targets[0].elts) == 4 and isinstance(s.targets[0].elts[1], ast.Name):
+                    vlists.add(s.targets[0].elts[1].id)
+        if not vlists:
+            continue
+        n += 1
+        bad = None
+        for c in walk_no_nested(m.node):
+            if isinstance(c, ast.Call) and (call_name(c) or "") in STACKERS and c.args:
+                a = c.args[0]
+                # stacking the list itself or a comprehension over it (one array per column)
+                direct = isinstance(a, ast.Name) and a.id in vlists
+                comp = isinstance(a, (ast.ListComp, ast.GeneratorExp, ast.List, ast.Tuple)) and any(
+                    isinstance(g.iter, ast.Name) and g.iter.id in vlists for g in getattr(a, "generators", []))
+                if direct or comp:
+                    bad = c
+        if bad is not None:
+            res.bad(m, bad, f"{m.qualname}: {norm(bad)[:80]}",
+                    "the value columns are stacked into one NumPy array: columns of different dtypes are promoted to a common "
+                    "dtype (large int64 values are rounded through float64, booleans become floats), so the returned values "
+                    "are no longer the input elements")
+        else:
+            res.ok(m, m.node, f"{m.qualname}: columns kept separate", "")
+    if n < 3:
+        raise AnalysisError(f"P17: only {n} methods handling a value list found (floor 3)")
+    return res
+
+
+# ------------------------------------------------------------------------------------------------ P18
+
+def rule_P18(repo: Repo) -> RuleResult:
+    """No hand-made equal-length chunking by floor division: L = len(a) // n with slices a[i*L:(i+1)*L] for i in range(n)
+    drops the last len(a) % n elements.  (np.array_split / array_split_with_chunk_handling cover the whole array.)"""
+    res = RuleResult("P18", "per-thread chunks cover the whole array (no floor-division slicing that drops the tail)")
+    n = 0
+    for f in repo.all_functions():
+        if f.module.name not in (CORE, NB, FACT, "util", "nanops", "emas"):
+            continue
+        floor_lens: Dict[str, ast.Assign] = {}
+        for s in walk_no_nested(f.node):
+            if isinstance(s, ast.Assign) and len(s.targets) == 1 and isinstance(s.targets[0], ast.Name) \
+                    and isinstance(s.value, ast.BinOp) and isinstance(s.value.op, ast.FloorDiv) \
+                    and isinstance(s.value.left, ast.Call) and norm(s.value.left.func) == "len":
+                floor_lens[s.targets[0].id] = s
+        splitters = [c for c in ast.walk(f.node) if isinstance(c, ast.Call) and (call_name(c) or "").split(".")[-1] in (
+            "array_split", "array_split_with_chunk_handling")]
+        if splitters:
+            n += 1
+            res.ok(f, splitters[0], f"{f.qualname}: {norm(splitters[0])[:60]}", "covering splitter", nontrivial=False)
+        def has_floor_len(e: ast.AST) -> bool:
+            return any(isinstance(y, ast.BinOp) and isinstance(y.op, ast.FloorDiv) and isinstance(y.left, ast.Call)
+                       and norm(y.left.func) == "len" for y in ast.walk(e))
+
+        inline = ast.Assign(targets=[], value=ast.Constant(value=None))
+        inline_sites = [x for x in ast.walk(f.node) if isinstance(x, ast.Subscript) and isinstance(x.slice, ast.Slice)
+                        and x.slice.lower is not None and x.slice.upper is not None
+                        and has_floor_len(x.slice.lower) and has_floor_len(x.slice.upper)]
+        if inline_sites:
+            floor_lens["<inline len(..) // n>"] = ast.Assign(targets=[], value=next(
+                y for y in ast.walk(inline_sites[0].slice.upper) if isinstance(y, ast.BinOp) and isinstance(y.op, ast.FloorDiv)))
+        for L, st in floor_lens.items():
+            for x in ast.walk(f.node):
+                if isinstance(x, ast.Subscript) and isinstance(x.slice, ast.Slice) and x.slice.lower is not None \
+                        and x.slice.upper is not None and ((L in _names(x.slice.lower) and L in _names(x.slice.upper))
+                                                           or (L.startswith("<inline") and x in inline_sites)):
+                    # is the remainder handled anywhere (len % n, or a last chunk up to the end)?
+                    handled = any(isinstance(y, ast.BinOp) and isinstance(y.op, ast.Mod) and isinstance(y.left, ast.Call)
+                                  and norm(y.left.func) == "len" for y in ast.walk(f.node))
+                    n += 1
+                    if handled:
+                        res.ok(f, x, f"{f.qualname}: {norm(x)[:70]}", "remainder handled")
+                    else:
+                        res.bad(f, x, f"{f.qualname}: {norm(x)[:70]}",
+                                f"chunks of equal length {norm(st.value)} are cut by hand: the last len % n elements fall into no "
+                                f"chunk and are silently ignored whenever the length is not a multiple of the number of chunks")
+    if n < 3:
+        raise AnalysisError(f"P18: only {n} chunking sites found (floor 3)")
+    return res
+
+
+# ------------------------------------------------------------------------------------------------ P19
+
+SORTERS = {"np.sort", "numpy.sort", "sorted"}
+
+
+def rule_P19(repo: Repo) -> RuleResult:
+    """searchsorted precondition: on every path the array that is searched was sorted in this function (np.sort,
+    .sort_values(), or indexed by an argsort key computed from that very array)."""
+    res = RuleResult("P19", "the array handed to searchsorted is sorted on every path")
+    n = 0
+    for f in repo.all_functions():
+        if f.module.name not in (CORE, NB, FACT, "util", "nanops", "emas") or f.is_njit:
+            continue
+        calls = [c for c in walk_no_nested(f.node) if isinstance(c, ast.Call) and isinstance(c.func, ast.Attribute)
+                 and c.func.attr == "searchsorted"]
+        for c in calls:
+            hay = c.func.value if norm(c.func.value) not in ("np", "numpy") else (c.args[0] if c.args else None)
+            if not isinstance(hay, ast.Name):
+                continue
+            if f.module.name == CORE and "_chunk_offsets" in norm(hay):
+                continue
+            n += 1
+            H = hay.id
+            # argsort keys:  k = np.argsort(X) / X.argsort()
+            keys: Dict[str, str] = {}
+            for s in walk_no_nested(f.node):
+                if isinstance(s, ast.Assign) and len(s.targets) == 1 and isinstance(s.targets[0], ast.Name) and isinstance(s.value, ast.Call):
+                    cn = call_name(s.value) or ""
+                    if cn in ("np.argsort", "numpy.argsort") and s.value.args and isinstance(s.value.args[0], ast.Name):
+                        keys[s.targets[0].id] = s.value.args[0].id
+                    elif cn.endswith(".argsort") and isinstance(s.value.func, ast.Attribute) and isinstance(s.value.func.value, ast.Name):
+                        keys[s.targets[0].id] = s.value.func.value.id
+            paths = [p for p in enumerate_paths(f.node.body) if any(c in list(ast.walk(st)) for st in p.stmts)]
+            bad_path = None
+            for p in paths:
+                sorted_now: Set[str] = set()
+                alias_of: Dict[str, str] = {}
+                for st in p.stmts:
+                    if any(x is c for x in ast.walk(st)):
+                        break
+                    if isinstance(st, ast.Assign) and len(st.targets) == 1 and isinstance(st.targets[0], ast.Name):
+                        t, v = st.targets[0].id, st.value
+                        cn = (call_name(v) or "") if isinstance(v, ast.Call) else ""
+                        if isinstance(v, ast.Call) and (cn in SORTERS or cn.endswith(".sort_values")):
+                            sorted_now.add(t)
+                        elif isinstance(v, ast.Subscript) and isinstance(v.value, ast.Name) and isinstance(v.slice, ast.Name) \
+                                and v.slice.id in keys and (keys[v.slice.id] == v.value.id
+                                                            or alias_of.get(v.value.id) == keys[v.slice.id]
+                                                            or alias_of.get(keys[v.slice.id]) == v.value.id
+                                                            or keys[v.slice.id] == t):
+                            sorted_now.add(t)
+                        elif isinstance(v, ast.Name):
+                            alias_of[t] = v.id
+                            if v.id in sorted_now:
+                                sorted_now.add(t)
+                            else:
+                                sorted_now.discard(t)
+                        else:
+                            sorted_now.discard(t)
+                if H not in sorted_now:
+                    bad_path = p
+                    break
+            construct = f"{f.qualname}: {norm(c)[:60]}"
+            if bad_path is None:
+                res.ok(f, c, construct, f"{H} is sorted on all {len(paths)} paths that reach the search")
+            else:
+                res.bad(f, c, construct,
+                        f"on some path {H!r} reaches searchsorted without having been sorted in this function (it is not the result "
+                        f"of np.sort / sort_values / indexing by its own argsort key): edges passed out of order give wrong bins "
+                        f"while the labels are built from the sorted edges", path=bad_path.describe()[:160])
+    if n < 1:
+        raise AnalysisError("P19: no searchsorted call found (pretty_cut is the confirmed instance)")
+    return res
+
+
+# ------------------------------------------------------------------------------------------------ P5b
+
+CODE_ORDER_ATTRS = {"ikey_count", "key_count"}
+CODE_ORDER_CALLS = {"count_ikey"}
+
+
+def rule_P5b(repo: Repo) -> RuleResult:
+    """Index-space agreement of selectors: an array that is in label-sorted order (it derives from self._labels_argsort or
+    self._group_sort_indexer) is only filtered by a selector that is in that order too.  Per-group counts straight from the
+    count API (self.ikey_count, self.count_ikey(..), self.key_count) are in first-appearance (code) order."""
+    from .rules_p import _sort_taint
+    res = RuleResult("P5b", "label-sorted arrays are filtered only by selectors in label-sorted order")
+    core = repo.mod(CORE)
+    n = 0
+    for name, m in core.methods("GroupBy").items():
+        tainted = _sort_taint(m, repo)
+        if not tainted:
+            continue
+
+        def code_order(e: ast.AST) -> Optional[str]:
+            """text of a code-order count source in e that is not itself re-ordered by the sort permutation"""
+            for x in ast.walk(e):
+                src = None
+                if isinstance(x, ast.Attribute) and x.attr in CODE_ORDER_ATTRS and attr_chain(x) and attr_chain(x)[0] == "self":
+                    src = x
+                if isinstance(x, ast.Call) and isinstance(x.func, ast.Attribute) and x.func.attr in CODE_ORDER_CALLS:
+                    src = x
+                if src is None:
+                    continue
+                # re-ordered in place?  src[<sort permutation>]
+                reordered = any(isinstance(p, ast.Subscript) and p.value is src and (
+                    _names(p.slice) & tainted or any(isinstance(a, ast.Attribute) and a.attr in ("_labels_argsort",)
+                                                     for a in ast.walk(p.slice))) for p in ast.walk(e))
+                if not reordered:
+                    return norm(src)
+            return None
+
+        # local names holding code-order selectors (single assignment from a code-order expression, not tainted)
+        code_names: Dict[str, str] = {}
+        for s in walk_no_nested(m.node):
+            if isinstance(s, ast.Assign) and len(s.targets) == 1 and isinstance(s.targets[0], ast.Name) \
+                    and s.targets[0].id not in tainted:
+                c = code_order(s.value)
+                if c:
+                    code_names[s.targets[0].id] = c
+        for sub in walk_no_nested(m.node):
+            if not (isinstance(sub, ast.Subscript) and isinstance(sub.ctx, ast.Load) and isinstance(sub.value, ast.Name)
+                    and sub.value.id in tainted):
+                continue
+            sl = sub.slice
+            if isinstance(sl, (ast.Slice, ast.Constant)) or (isinstance(sl, ast.Name) and sl.id in tainted):
+                continue
+            src = code_order(sl) or next((code_names[x] for x in _names(sl) if x in code_names), None)
+            if src is None:
+                continue
+            n += 1
+            res.bad(m, sub, f"{m.qualname}: {norm(sub)[:80]}",
+                    f"{sub.value.id!r} is in label-sorted order (it derives from the sort permutation) but is filtered by a selector "
+                    f"computed from {src}, which is in first-appearance (code) order: whenever labels do not first appear in sorted "
+                    f"order the results are attached to the wrong labels")
+        # positive instances: tainted bases filtered by tainted selectors
+        for sub in walk_no_nested(m.node):
+            if isinstance(sub, ast.Subscript) and isinstance(sub.ctx, ast.Load) and isinstance(sub.value, ast.Name) \
+                    and sub.value.id in tainted and isinstance(sub.slice, (ast.Compare, ast.Name, ast.List, ast.ListComp)) \
+                    and (_names(sub.slice) & tainted):
+                n += 1
+                res.ok(m, sub, f"{m.qualname}: {norm(sub)[:80]}", "selector in the same (label-sorted) order")
+    if n < 2:
+        raise AnalysisError(f"P5b: only {n} filtered label-sorted arrays found (floor 2)")
+    return res
+
+
+# ------------------------------------------------------------------------------------------------ P20
+
+NAN_DROPPING = {"np.fmax", "np.fmin", "np.nan_to_num", "np.nanmax", "np.nanmin", "np.nansum", "np.nanmean", "numpy.fmax",
+                "numpy.fmin", "numpy.nan_to_num"}
+NAN_DROPPING_METHODS = {"fillna", "nan_to_num", "combine_first"}
+
+
+def rule_P20(repo: Repo) -> RuleResult:
+    """var / std / ratio / subset_ratio / mean_from_sum_count: the arithmetic that combines the primitives applies no
+    null-suppressing function (np.fmax / np.fmin / nan_to_num / fillna ...) - a group with too few values must come out null
+    (0/0, x/(n - ddof) with n <= ddof), not as a number."""
+    res = RuleResult("P20", "composite statistics do not suppress the nulls that mark 'too few values'")
+    core = repo.mod(CORE)
+    funcs = [core.func(f"GroupBy.{n_}") for n_ in ("var", "std", "ratio", "subset_ratio")] + [repo.func("util", "mean_from_sum_count")]
+    for f in funcs:
+        bad = None
+        for c in walk_no_nested(f.node):
+            if isinstance(c, ast.Call):
+                cn = call_name(c) or ""
+                if cn in NAN_DROPPING or (isinstance(c.func, ast.Attribute) and c.func.attr in NAN_DROPPING_METHODS):
+                    bad = c
+        if bad is not None:
+            res.bad(f, bad, f"{f.qualname}: {norm(bad)[:80]}",
+                    f"{norm(bad.func)} replaces / ignores NaN: the null that 0/0 or a non-positive denominator produces for a group "
+                    f"with too few values is turned into a number (e.g. variance -0.0 for an all-null group with ddof=1)")
+        else:
+            res.ok(f, f.node, f"{f.qualname}: no null-suppressing function", "")
+    return res
